@@ -19,7 +19,7 @@ EXPLANATION = (
     "inheritance layouts with overriding (first / default / plain / non-state redefinitions) instantiation succeeds iff exactly one "
     "effective state (Python attribute resolution order) is first and at most one is default, otherwise raises NoFirstStateError / "
     "MultipleFirstStatesError / MultipleDefaultStatesError; C12.O1 for every accepted layout state_names is exactly the effective "
-    "states, base classes first in definition order, and state_descriptions is aligned to it."
+    "states, base classes first in definition order, and state_descriptions is aligned to it.  Illegal parameter names include fragments and near misses of the allowed ones (state, t, initial, call, _tm, tm_, Tm ...)."
 )
 RULE = "one case = one abstract class definition (decorator, name, signature or inheritance layout); distinct = distinct definitions"
 EXHAUSTIVE = False
